@@ -56,8 +56,22 @@ STRENGTH = {
  "C17-8": "three threads resolving long names that do not fit one SNL PDU at link MIU 128 (checks/c17.py)",
  "C18-8": "scripted reader in front of the emulated card and user callbacks that take time: when terminate() is already true at the return of the card's on-connect no further data exchange may follow (checks/c18.py)",
  "C20-8": "NDEF octets read before authentication (altered in transit) must not be what tag.ndef returns after authenticate() succeeded (checks/c20.py)",
+ "C09-8": "phase handoff: enumerated two-point schedules (thread descheduled at line i of its call, resumed at line j of the termination code) (checks/c09_handoff.py, dsim/kernel.py set_handoff)",
+ "C01-9": "Type 3 layouts with 257 and 300 blocks in the quick tier (dsim/w1/gen.py)",
+ "C03-9": "operation write-retry (failed write under a persisting air error, then the same octets once more through the same NDEF object; two-sector Type 2 Tags, fault on SECTOR SELECT packet 2; air fault kind noise; Type 2 model: the wait for packet 2 times out) (checks/c03.py, dsim/w1/device.py, dsim/w1/t2t.py)",
+ "C06-9": "slow applications: service and client threads stalled between their socket calls so that receive windows fill up (checks/c06.py)",
+ "C08-9": "card variant over_answer also on the read of the length field and on every read (dsim/w1/t4t.py, checks/c08.py)",
+ "C09-9": "handoff scenario double_close: second closer of a socket descheduled inside close(), a third thread binds a fresh socket meanwhile (checks/c09_handoff.py)",
+ "C13-9": "fault kind thread/close: another application thread closes the frontend while a host command of the exchange is under way (checks/c13.py, dsim/w2/transport.py)",
+ "C14-9": "Type 1 Tag commands repeated with the same bytearray object must go out as command + CRC_B each time (checks/c14.py)",
+ "C16-9": "the fault script stays armed during the activate operation (checks/c16.py)",
+ "C17-9": "datagrams of exactly the link MIU; a datagram for a bound logical data link socket must arrive (checks/c17.py)",
+ "C18-9": "air interface error on the answer to the first command after a discovery (tag activation) (dsim/w4.py, checks/c18.py)",
+ "C19-9": "LLC frames handed to NFC-DEP measured against the peer's link MIU; burst of datagrams pending at once (checks/c19.py)",
+ "C20-9": "after a failed authenticate(P) a man in the middle forges read_with_mac answers with P's session key (checks/c20.py)",
  "C20-4": "the NTAG21x model answers a wrong password with a NAK code drawn per run (0h, 1h, 4h, 5h) and a wrong password whose PACK ends in that code is tried (dsim/w1/t2t.py, checks/c20.py)",
 }
+DATE = "2026-09-25"
 rows = []
 for d in sorted(glob.glob(os.path.join(HERE, "seeded", "*", ""))):
     sid = os.path.basename(d.rstrip("/"))
@@ -66,19 +80,21 @@ for d in sorted(glob.glob(os.path.join(HERE, "seeded", "*", ""))):
     m = json.load(open(mp))
     sigs = res.get(sid)
     if sigs is None:
-        print("no result for", sid)
-        continue
-    m["confirmed"] = {
+        # not part of this sweep: the record of the last sweep that covered it stays
+        old = m.get("confirmed") or {}
+        sigs = [(sg, old.get("runs_reporting", {}).get(sg, 0)) for sg in old.get("caught_by_signatures", [])]
+    else:
+      m["confirmed"] = {
         "how": "tools/confirm_seed.sh in a scratch worktree of /repo HEAD (removed afterwards): demo.py exit 0 without the patch, "
                "exit 1 with it; tools/run_baseline.py with the patch: 2331 of 2331 baseline tests pass",
         "check_cmd": "tools/try_seed.sh seeded/%s/patch.diff %s --tier quick  (git -C /repo apply, ./check, git -C /repo checkout -- .) "
                      "or tools/try_seed_wt.sh (same in a scratch worktree through NFCPY_SRC)" % (sid, pid),
         "check_exit": 1 if sigs else 0, "caught_by_signatures": [s for s, _ in sigs], "runs_reporting": dict(sigs),
-        "date": "2026-09-24"}
-    if sid in STRENGTH:
+        "date": DATE}
+      if sid in STRENGTH:
         m["confirmed"]["check_strengthened"] = "first missed or only marginally caught; " + STRENGTH[sid]
-    json.dump(m, open(mp, "w"), indent=1)
-    open(mp, "a").write("\n")
+      json.dump(m, open(mp, "w"), indent=1)
+      open(mp, "a").write("\n")
     summ = m["summary"].replace("|", "/").replace("\n", " ")
     short = summ[:150].rsplit(" ", 1)[0] + " …"
     sg = "; ".join("`%s`" % s.replace("|", "¦") for s, _ in sigs[:2]) or "**NOT REPORTED**"
